@@ -10,7 +10,7 @@ from pipeline import (ImplFns, check_simulation, compare_value_arrays, explicit_
                       materialise_case, model_layout, model_solve)
 from dsl import params_impl
 
-FORCES = [["mixed"], ["mixed", "cont2"], ["filter"], ["cont2", "flatc", "lower"], ["stoch"], ["f1"], ["constraint"], None, ["mixed", "stoch"], ["aux"], ["nofilter"],
+FORCES = [["mixed"], ["mixed", "cont2", "stacked"], ["filter"], ["cont2", "flatc", "lower"], ["stoch"], ["f1"], ["constraint"], None, ["mixed", "stoch"], ["aux"], ["nofilter"],
           ["f1", "constraint"], ["stoch3", "eqsize"], ["stoch3"], ["log"], ["log", "mixed"], ["filter", "flatd"], ["flatc", "lower"], ["mixed", "flatd", "lower"], ["flatc", "flatd", "lower", "filter"]]
 AGENTS = [1, 6, 7, 11]
 
